@@ -253,6 +253,10 @@ def run(prop, tier, seed):
         groups.append((T, [g.value(T) for _ in range(2)]))
     events = record(groups, {prop})
     events += extra_events(prop, seed, tier)
+    if prop == "C20":
+        # the builder context as a state machine: every sequence of builds x dialect x all_refs x ref_prefix (spec/sys/SchemaCtx.tla)
+        from harness.checks import schema_ctx
+        schema_ctx.run_into(rep, tier, wd)
     while _LAST_TLC:
         rep.add_tlc(*_LAST_TLC.pop())
     bad, results, njudged = validate(events, wd)
@@ -353,21 +357,22 @@ def extra_events(prop, seed, tier):
     # subjects declared with string annotations / forward references (NamedTuple fields, TypeVar bounds): both properties
     from mashumaro.codecs.basic import BasicEncoder as _BE
     from harness.checks import schema_subjects_future as fut
-    for name, ann, values in fut.SUBJECTS:
+    from harness.checks import schema_subjects_constraints as con
+    for name, ann, values in fut.SUBJECTS + con.SUBJECTS:
         for ci, (dn, ar) in enumerate(COMBOS):
             try:
                 root, sd, defs, prefix, schema = build_root(ann, dn, ar)
                 jr = jterm(root)
                 paths, facts = facts_of(root, prefix)
-                ev.append(["Schema", f"f{name}{ci}s", jr, paths, facts, sorted(defs), lib_wellformed(root), ["hand-written", "forward-ref " + name], [dn, ar]])
+                ev.append(["Schema", f"f{name}{ci}s", jr, paths, facts, sorted(defs), lib_wellformed(root), ["hand-written", "subject " + name], [dn, ar]])
                 if prop == "C06":
                     for k, val in enumerate(values):
                         inst = json.loads(json.dumps(_BE(ann).encode(val)))
-                        ev.append(["Validate", f"f{name}{ci}.{k}", jr, paths, jterm(inst), lib_valid(root, inst), ["hand-written", "forward-ref " + name], repr(val), [dn, ar]])
+                        ev.append(["Validate", f"f{name}{ci}.{k}", jr, paths, jterm(inst), lib_valid(root, inst), ["hand-written", "subject " + name], repr(val), [dn, ar]])
             except RecursionError:
-                ev.append(["BuildFailed", f"f{name}{ci}", ["hand-written", "forward-ref " + name], [dn, ar], ["RecursionError", ""]])
+                ev.append(["BuildFailed", f"f{name}{ci}", ["hand-written", "subject " + name], [dn, ar], ["RecursionError", ""]])
             except Exception as e:  # noqa: BLE001
-                ev.append(["BuildFailed", f"f{name}{ci}", ["hand-written", "forward-ref " + name], [dn, ar], [type(e).__name__, str(e)[:160]]])
+                ev.append(["BuildFailed", f"f{name}{ci}", ["hand-written", "subject " + name], [dn, ar], [type(e).__name__, str(e)[:160]]])
     if prop == "C20":
         ev += default_families(tier)
         from harness.real import Subject
